@@ -306,6 +306,9 @@ class Judge:
             else:
                 loc = re.sub(r"^.*/(src/)", r"\1", loc)
             msg = re.sub(r"the len is \d+ but the index is \d+", "the len is N but the index is M", m.group(3) if m else "")
+            # one site = one group whatever the sizes in the message are (the smallest input of the group is reported)
+            msg = re.sub(r"range (end|start) index \d+ out of range for slice of length \d+",
+                         r"range \1 index N out of range for slice of length M", msg)
             sig = f"panic {loc} {msg[:70]}"
         elif reply.startswith("abort"):
             sig = f"abort ({reply}: {'stack overflow / signal' if '-' in reply else 'exit'})"
